@@ -1088,3 +1088,52 @@ def r_lock_client_identity(ctx):
     else:
         ctx.unproven(inst, init.loc(), 'default id construction not recognised')
     ctx.expect_min(3)
+
+
+# operations of the wrapped builtins whose result depends on the internal layout of the container (insertion / resize
+# history of the hash table), not on its contents: equal containers on two replicas can answer differently
+LAYOUT_DEPENDENT = {
+    'set': {'pop': 'set.pop() removes whichever element the hash table yields first'},
+}
+
+
+@rule('R-deterministic-ops', 'a replicated battery operation is a function of the contents of its container: it does not delegate to a '
+                             'builtin operation whose result depends on the container\'s internal layout')
+def r_deterministic_ops(ctx):
+    """Replicas reach equal contents along different histories (log replay vs. snapshot restore: unpickling rebuilds a
+    set's hash table).  `set.pop()` then removes different elements on different replicas and the replicas differ from
+    there on.  Also flagged: picking the first element of an iteration over a set (`next(iter(s))`)."""
+    P = ctx.P
+    n_ops = 0
+    for cn in BATTERIES:
+        if not P.has_cls(cn):
+            continue
+        cls = P.cls(cn)
+        attr, kind = container_kind(P, cls)
+        if kind not in LAYOUT_DEPENDENT:
+            continue
+        for m in P.methods_of(cls):
+            if m.owner_cls is not cls or m.name == '__init__':
+                continue
+            repl = any('replicated' in unparse(d) for d in m.decorators)
+            if not repl:
+                continue
+            n_ops += 1
+            ctx.tick()
+            bad = []
+            for c in P.calls_in(m):
+                if isinstance(c.func, ast.Attribute) and P.self_attr(c.func.value, m.self_name) == attr and c.func.attr in LAYOUT_DEPENDENT[kind] and not c.args:
+                    bad.append((c, LAYOUT_DEPENDENT[kind][c.func.attr]))
+                if isinstance(c.func, ast.Name) and c.func.id == 'next' and c.args and isinstance(c.args[0], ast.Call) and unparse(c.args[0].func) == 'iter' \
+                        and c.args[0].args and P.self_attr(c.args[0].args[0], m.self_name) == attr:
+                    bad.append((c, 'the first element of an iteration over a %s depends on its hash table' % kind))
+            inst = '%s.%s is a function of the contents' % (cn, m.name)
+            if bad:
+                c, why = bad[0]
+                ctx.violation('%s.%s:layout-dependent-result' % (cn, m.name), m.loc(c),
+                              '`%s` in a replicated operation: %s; replicas with equal contents but different histories (one of them restored from a snapshot) change differently '
+                              'and stay different' % (unparse(c), why), instance=inst)
+            else:
+                ctx.ok(inst, m.loc(), '', nontrivial=False)
+    ctx.require(n_ops >= 3, 'replicated operations of the set battery not found')
+    ctx.expect_min(3)
